@@ -18,7 +18,7 @@ LEVEL = ("Generated-input exploration: explicit random features give K = Phi Phi
          "Nystrom trace are checked directly. No absence claim: strength = the counted distinct non-trivial cases in the evidence.")
 BUDGET = {"quick": 1500, "thorough": 25000}
 RULE = ("Cases: n in 2..12 (thorough 40) training samples with 1..8 explicit features of global magnitude {1e-7,1e-3,1,1e3} plus a drawn offset, 1..9 test samples, "
-        "weights None / uniform / real positive / integer multiplicities, all with_center / with_trace combinations, active sets of "
+        "weights None / uniform / real positive / integer multiplicities (each optionally with exactly-zero entries, at least one positive), all with_center / with_trace combinations, active sets of "
         "1..n training samples (or arbitrary feature vectors) for the sparse variant.  Non-trivial: n >= 3 and centring or trace scaling "
         "switched on; distinct = SHA-1 of the canonical case.")
 ASSUMPTIONS = [
@@ -46,6 +46,12 @@ def strategy_(draw, tier):
         w = draw(hnp.arrays(np.float64, (n,), elements=st.floats(0.125, 2, width=32)))
     else:
         w = draw(hnp.arrays(np.int64, (n,), elements=st.integers(1, 3))).astype(float)
+    if w is not None and wk in ("real", "int") and draw(st.booleans()):
+        # non-negative weights: some samples carry exactly zero weight (at least one stays positive)
+        z = draw(hnp.arrays(np.bool_, (n,)))
+        if not z.all():
+            w = np.where(z, 0.0, w)
+            wk = wk + "+zeros" if z.any() else wk
     ma = draw(st.integers(1, n))
     if draw(st.booleans()):
         act = draw(st.lists(st.integers(0, n - 1), min_size=ma, max_size=ma, unique=True))
